@@ -10,14 +10,10 @@ COMMON_NOTE = ("Assumes: the hand-written Gallina model equals the code only as 
                "(ClassicalDedekindReals.sig_forall_dec, sig_not_dec, Classical_Prop.classic, functional_extensionality_dep). ")
 TECH = "Coq proof over a Gallina model + vm_compute model/implementation correspondence + property monitor"
 SPEC = {
-    "C01": ("Kernel-checked theorems that the model evaluator (expected, best-response DP) equals the expected terminal payoff and the "
-            "best-response value under WF + perfect recall; correspondence of get_info with the model at binary64; independent "
-            "exhaustive best-response oracle as monitor.", "7 (C01)", ""),
+    "C01": ("Kernel-checked theorems: the model evaluator equals the expected terminal payoff (leaf sum) for every profile; under WFgame + PerfectRecall + ChanceOK (what from_root guarantees, C11) the best-response value is an upper bound over every behavioural deviation and is attained by a pure strategy, so each reported regret is exactly the largest unilateral gain, non-negative, total = max; zero regret iff equilibrium. Correspondence of get_info with the model at binary64 + independent exhaustive best-response oracle as monitor.", "7 (C01)", ""),
     "C02": ("CFR theory on the solver model (regret-matching potential, bound dominates true regret) + correspondence of "
             "solve(Full, vanilla) with the model + monitor bound >= true regret (get_info and exhaustive best response).", "7 (C02)", ""),
-    "C03": ("Kernel-checked regret-matching potential / per-infoset rate on the model + correspondence + monitors of both envelopes "
-            "on adversarial games. Clause 2 for cfr_plus/dcfr/dcfr_prune is decided by the monitor only (partial).", "7 (C03)",
-            "PARTIAL: the true-regret rate for the three discounted presets is not proved. "),
+    "C03": ("Kernel-checked CFR rate of the returned bounds for EVERY parameter set, oracle, budget and stop predicate: b_pl <= 2*D*N*sqrt(A)/sqrt(T) (regret-matching potential, counterfactual mass <= 1 under perfect recall, increments bounded by the payoff range), every prefix; clause 2 for vanilla via C02. Correspondence + monitors of both envelopes on adversarial games.", "7 (C03)", "PARTIAL: the true-regret rate for lcfr/cfr_plus/dcfr/dcfr_prune (Brown-Sandholm 2019) is not proved; it is decided by the monitor. "),
     "C04": ("Partial: pathwise theorems shared with C03/C05 on the sampled traversals (invariants, bounds) + correspondence under "
             "pinned draws + statistical monitor under seeded weight-honouring sampling.", "7 (C04)",
             "PARTIAL: the probabilistic concentration step and the empirical sentence are monitored, not proved. "),
@@ -26,11 +22,8 @@ SPEC = {
             "iteration ran) + correspondence and no-panic/validity monitor over methods x params x budgets x thresholds x thread "
             "counts incl. the usize::MAX/3 boundary.", "7 (C05)",
             "Known finding: binary64 overflow at |payoff| ~ 1e308 (listed). OS thread creation and rayon are runtime, not model. "),
-    "C06": ("Correspondence implementation(k threads) vs implementation(1 thread) vs model on frontier-adversarial trees with "
-            "seeded yield points; theorems: parallel decomposition equals the sequential traversal for every schedule of atomic "
-            "increments (Properties/C06.v).", "7 (C06)", "Atomics, Mutex and rayon are trusted. "),
-    "C07": ("As C06 for the sampled methods under pinned draws (hook), plus at most one draw per cell and pass and no try_lock "
-            "panic.", "7 (C07)", "Atomics, Mutex and rayon are trusted. "),
+    "C06": ("Kernel-checked: the traversal is a pure value plus a list of atomic increments that commute; cut lemma for any antichain; the code's frontier is one for every target; hence the model of the multi-threaded solve (thread_threshold, payoff cache, tasks under ANY permutation schedule per iteration) returns exactly what the single-threaded solve returns, for every target, params, budget, stop predicate. Correspondence implementation(k threads) vs implementation(1 thread) vs model on frontier-adversarial trees with seeded yield points.", "7 (C06)", "Atomics, Mutex and rayon are trusted; equality is over the reals (summation order). "),
+    "C07": ("Kernel-checked: chance-sampled multi = single (shared with C06); external-sampled: pass = pure value + commuting increments, unique visit of every active infoset per pass under perfect recall (over workers and cached traversal together: no try_lock collision), cut lemma, frontier antichain, one draw per cell and pass, solve_ext_multi = solve_single for every oracle, target, schedule and reduction order. Correspondence under pinned draws (k threads vs 1 vs model), draw-event monitor.", "7 (C07)", "Atomics, Mutex and rayon are trusted. "),
     "C08": ("The Coq model is the executable specification; 29 kernel-checked theorems show its update rules mean what the "
             "documentation says (discount factors t^a/(t^a+1), averaging weights t^g, regret matching and its four fallbacks, order "
             "of updates, presets); trajectory-level correspondence for every method under pinned draws decides agreement.", "7 (C08)",
@@ -42,8 +35,7 @@ SPEC = {
             "solver frame properties; observer-mode correspondence: recorded live draws replayed through the model reproduce the "
             "run and the presented weights; z-test of production sampler frequencies.", "7 (C10)",
             "rand_distr::WeightedAliasIndex / thread_rng trusted. "),
-    "C11": ("Kernel-checked soundness/blame/completeness of the from_root model against a declarative contract + correspondence on "
-            "valid and invalid trees + independent Python contract oracle.", "7 (C11)", ""),
+    "C11": ("Kernel-checked: acceptance <-> declarative contract on node occurrences (over R; completeness and blame for every number type), a rejection names a violated rule, accepted games satisfy WFgame + PerfectRecall (whole history) + ChanceOK, accepted data is finite/positive for every number type incl. binary64. Correspondence on valid and invalid trees + independent Python contract oracle.", "7 (C11)", ""),
     "C12": ("Kernel-checked invariance theorems on the model (rescaling, renaming, scaling, shifting, swapping) + correspondence of "
             "original vs transformed presentations through the implementation.", "7 (C12)", ""),
     "C13": ("Kernel-checked theorems on the iterator state machines (exact lengths at every prefix, items, round trip) + "
